@@ -100,10 +100,19 @@ func (n *Net) Block(e string, on bool) {
 }
 
 // Inject places a raw packet at the tail of the link towards endpoint to, as
-// if its peer had sent it.
+// if its peer had sent it.  It bypasses a closed gate.
 func (n *Net) Inject(to string, b []byte) {
+	l := n.to[to]
+	l.mu.Lock()
+	g := l.gated
+	l.gated = false
+	l.mu.Unlock()
 	n.enqueue(peer(to), b, Fate{Copies: 1}, "inj")
+	l.mu.Lock()
+	l.gated = g
+	l.mu.Unlock()
 }
+
 
 // Gate parks (on) every later packet towards endpoint to until Release.
 func (n *Net) Gate(to string, on bool) {
